@@ -700,6 +700,57 @@ def stage_optional_removals(ctx: Ctx):
                                               {**rec, 'detail': bad[1], 'src_now': m.src})
 
 
+def stage_walk_root_removed(ctx: Ctx):
+    """deterministic: a walk started on an INNER node; while it stands at a descendant, the walk root itself or one of its ancestors is removed or replaced: nothing that is no
+    longer part of the tree is yielded afterwards (the walk root on leaving included), nothing raises; every on / back setting"""
+    import fst
+    progs = ['if c:\n    x = [a, f(b), d]\n    y = 1\nz = 2\n', 'def f():\n    return g(h(i), j)\nk = 0\n', 'r = [p, (q, s(t)), u]\nv = 1\n', 'with a:\n    for i in j:\n        b(i)\n    c\nd\n']
+    for src in progs:
+        probe = fst.FST(src, 'exec')
+        wpaths = [probe.child_path(f, True) for f in probe.walk(True) if f.parent is not None and f.parent.parent is not None and list(f.walk(True, self_=False))
+                  and isinstance(f.a, (ast.stmt, ast.expr)) and not isinstance(f.a, ast.expr_context)]
+        for wp in wpaths:
+            for on in ('enter', 'leave', 'both'):
+                for back in (False, True):
+                    for victim in ('root', 'parent', 'grandparent'):
+                        for how in ('remove', 'replace'):
+                            m = fst.FST(src, 'exec')
+                            W = m.child_from_path(wp)
+                            V = W if victim == 'root' else W.parent if victim == 'parent' else W.parent.parent
+                            if V is None or V.parent is None:
+                                continue
+                            acted, bad = False, None
+                            rec = {'src': src, 'walk_root': wp, 'walk': {'on': on, 'back': back}, 'victim': victim, 'how': how}
+                            try:
+                                steps = 0
+                                for g in W.walk(True, on, back=back):
+                                    steps += 1
+                                    if steps > 300:
+                                        raise RuntimeError('walk does not end')
+                                    node, leaving = g if isinstance(g, tuple) else (g, on == 'leave')
+                                    if acted and (node.a is None or not in_tree(m, node)):
+                                        bad = ('yield-detached', repr(node) + (' (the walk root)' if node is W else ''))
+                                        break
+                                    if not acted and node is not W:
+                                        try:
+                                            if how == 'remove':
+                                                V.remove()
+                                            else:
+                                                V.replace('zz' if isinstance(V.a, ast.expr) else 'zz = 0')
+                                        except Exception:
+                                            ctx.dist['root-removed:refused'] = ctx.dist.get('root-removed:refused', 0) + 1
+                                            break
+                                        acted = True
+                            except Exception as e:
+                                bad = (f'walk-raise|{type(e).__name__}', repr(e)[:200])
+                            if not acted:
+                                continue
+                            ctx.tick(('root-removed', src, wp, on, back, victim, how), f'root-removed:{on}:{victim}:{how}')
+                            if bad:
+                                ctx.violation(f'{bad[0]}|walk-root-{how}d|{on}', 'after the walk root (or an ancestor of it) was removed / replaced the iteration raised or yielded a node that is no longer part of the tree',
+                                              {**rec, 'detail': bad[1], 'src_now': m.src})
+
+
 RESEND_PROGS = ['r = [a, [b, c], d]\n', 'x = f(a, g(b, k=c), d)\ny = 1\n', 'if a:\n    b = (c, {d: e})\nelse:\n    z = -w\n', 'v = [i for i in (j, k) if l]\n']
 
 
@@ -876,6 +927,7 @@ def run(ctx: Ctx):
     run_guarded(ctx, stage_entry_send)
     run_guarded(ctx, stage_slice_removals)
     run_guarded(ctx, stage_optional_removals)
+    run_guarded(ctx, stage_walk_root_removed)
     run_guarded(ctx, stage_search_send)
     run_guarded(ctx, stage_leave_corr, progs)
     run_guarded(ctx, stage_corr, progs)
